@@ -10,12 +10,12 @@ ASSUMPTIONS = ["rename(2) is atomic; a crash between system calls leaves what th
 def ob(name, defs, **kw):
     o = dict(name=name, src='h_chkpnt.c', defs=defs + ['ECHSE_VERIF_FDBUF=128U'], units=['src/evical.c', 'src/task.c'], incl=['src/echsd.c'], replay_units='all', replay_extra_units=['src/logger.c'],
              unwind=6, unwindset={'snprintf.*': 9, 'openat.*': 17, 'fdflush.*': 3, 'memcpy.*': 130, 'strlen.*': 40, 'chkpnt1.*': 6},
-             solver='cadical', timeout=1500, mem_gb=24, object_bits=12, checks=['--bounds-check'],
+             solver='cadical', timeout=1500, mem_gb=24, object_bits=12, checks=['--bounds-check'], replace_calls={'memcpy': 'c06_memcpy'},
              allow_nobody=['obint_name', 'echs_log', 'echs_errlog', 'epoch_to_echs_instant', 'dt_strf_ical', 'idiff_strf', 'echs_evstrm_seria'],
              enc=['chkpnt', 'chkpnt1', 'echs_icalify_init', 'echs_task_icalify', 'send_task', 'send_ical_hdr', 'send_ical_ftr', 'echs_icalify_fini', 'fdprintf', 'fdwrite', 'fdflush'],
              sym='which system call fails and how, number of tasks, their owners, the dirty user', bounds='<= 2 tasks, fault among the first 12 system calls',
              outside='reload of the written file; chkpnta() (all-users dump after 16 dirty users)',
-             stubs=['file-system stand-in (openat/write/close/renameat/unlinkat) in the harness', 'snprintf stand-in for the file-name format', 'vsnprintf stand-in: arbitrary byte count 0..24 per call, no content', 'hook ECHSE_VERIF_FDBUF=128 (output buffer of 128 instead of 4096 bytes: more flushes per checkpoint)'])
+             stubs=['file-system stand-in (openat/write/close/renameat/unlinkat) in the harness', 'snprintf stand-in for the file-name format', 'vsnprintf stand-in: arbitrary byte count 0..24 per call, no content', 'memcpy of the buffered writer: bounds obligation kept, content dropped', 'hook ECHSE_VERIF_FDBUF=128 (output buffer of 128 instead of 4096 bytes: more flushes per checkpoint)'])
     o.update(kw)
     return o
 OBLIGATIONS = [
